@@ -55,6 +55,9 @@ func c19RecipeLadder(c *ScaleCase) (msg string, series []uint64) {
 		}
 		total := sm.validate + sm.plan + sm.exec
 		series = append(series, total)
+		if sm.reexec > 0 {
+			return fmt.Sprintf("recipe %+v at n=%d: executing the same plan a second time did %d planning steps: runtime types that were already encountered are planned again", *c.Recipe, n, sm.reexec), series
+		}
 		if i > 0 && total > 50000 && float64(total) > 12*float64(prev) {
 			return fmt.Sprintf("recipe %+v: work grows from %d steps at n=%d to %d steps at n=%d (x%.1f for n x1.5; degree-5 growth gives x7.6)\n  series over n=%v: %v (validate %d, plan %d, execute %d at the last size)\n  document at n=4: %s",
 				*c.Recipe, prev, sizes[i-1], total, n, float64(total)/float64(prev), sizes[:i+1], series, sm.validate, sm.plan, sm.exec, recipeDoc(c.Recipe, 4)), series
@@ -152,6 +155,14 @@ func scaleDoc(family string, n, m int) string {
 			fmt.Fprintf(&sb, "... on T%d { x: v next { x: w } } ", i%m)
 		}
 		sb.WriteString("} }")
+	case "sparse": // nesting through an abstract field; only one implementer selects anything at the innermost level
+		sb.WriteString("{ node ")
+		for i := 0; i < n; i++ {
+			sb.WriteString("{ next ")
+		}
+		sb.WriteString("{ ... on T0 { v } }")
+		sb.WriteString(strings.Repeat(" }", n))
+		sb.WriteString(" }")
 	case "wide": // n distinct aliases
 		sb.WriteString("{ ")
 		for i := 0; i < n; i++ {
@@ -162,12 +173,13 @@ func scaleDoc(family string, n, m int) string {
 	return sb.String()
 }
 
-var scaleFamilies = []string{"depth", "chain", "fan", "dag", "nestdag", "repeat", "litdeep", "litwide", "exclusive", "wide"}
+var scaleFamilies = []string{"sparse", "depth", "chain", "fan", "dag", "nestdag", "repeat", "litdeep", "litwide", "exclusive", "wide"}
 
 type scaleMeasure struct {
 	validate, plan, exec uint64
 	sites                [8]uint64
 	abstractPlanned      uint64
+	reexec               uint64 // planning steps of a second execution of the same plan
 	abstractSeen         int
 }
 
@@ -259,6 +271,12 @@ func measureUnbounded(b *build.Built, w *ref.World, text string) (sm scaleMeasur
 		sm.exec += x
 	}
 	sm.abstractPlanned = e[graphql.VerifSiteAbstractPlanned]
+	// the same plan, the same values, once more: every runtime type was encountered before
+	graphql.VerifResetSteps()
+	graphql.ExecutePlan(plan, graphql.ExecuteParams{Schema: b.Schema, Context: build.WithSession(nil, &build.Session{W: w})})
+	for _, x := range graphql.VerifSteps() {
+		sm.reexec += x
+	}
 	// how many (abstract position, runtime type) pairs did the response really contain?
 	seen := map[string]bool{}
 	var walk func(x interface{}, path string)
@@ -302,6 +320,9 @@ func c19Ladder(c *ScaleCase, sizes []int) (msg string, series []uint64) {
 		}
 		total := sm.validate + sm.plan + sm.exec
 		series = append(series, total)
+		if sm.reexec > 0 {
+			return fmt.Sprintf("family %s (m=%d) at n=%d: executing the same plan a second time did %d planning steps: runtime types that were already encountered are planned again", c.Family, m, n, sm.reexec), series
+		}
 		if i == 0 {
 			base = float64(total) / float64(n*n*n)
 			if base < 1 {
